@@ -628,6 +628,13 @@ fn strings(reduced: bool) -> Vec<String> {
         "y".repeat(128),
         "\u{e9}".repeat(8192),
     ]
+    .into_iter()
+    // every length around the points where a length prefix grows by a byte, so that some
+    // ENCLOSING body (a nested message, a named variant, a Result payload) is exactly 2^7 or 2^14
+    // bytes long whatever its fixed overhead of up to a dozen bytes is
+    .chain((118..=130usize).map(|n| "z".repeat(n)))
+    .chain((16370..=16390usize).map(|n| "z".repeat(n)))
+    .collect()
 }
 
 fn fixed_bytes(n: usize, reduced: bool) -> Vec<Vec<u8>> {
@@ -838,6 +845,36 @@ pub struct Case {
 /// Per-field sweep (full domains, other fields default) followed by all pairs of fields at the
 /// reduced domains, for the top-level fields of `s` (for an enum: its variants, and the fields of
 /// its named variants).
+/// Sizes of ENCLOSING bodies: for every message-typed field (plain, optional or repeated) of a
+/// struct whose nested struct has a string or bytes field, that inner field sweeps every length
+/// around 2^7 and 2^14 (the points where the nested body's own length prefix grows by a byte),
+/// everything else at its default.  The full domains of nested fields are otherwise reduced.
+fn nested_size_sweep(fs: &[FieldSpec], wrap: &dyn Fn(Vec<Val>) -> Val, prefix: &str, out: &mut Vec<Case>) {
+    let base: Vec<Val> = fs.iter().map(default_field).collect();
+    for (i, f) in fs.iter().enumerate() {
+        let Kind::Message(inner) = &f.kind else { continue };
+        let Shape::Struct(ifs) = &inner.shape else { continue };
+        let Some(j) = ifs.iter().position(|g| matches!(g.kind, Kind::Str | Kind::Bytes) && matches!(g.card, Card::One)) else { continue };
+        let lens = (100..=135usize).chain(16350..=16395usize);
+        for len in lens {
+            let mut iv: Vec<Val> = ifs.iter().map(default_field).collect();
+            iv[j] = match ifs[j].kind {
+                Kind::Str => Val::Str("z".repeat(len)),
+                _ => Val::Bytes(vec![0x5a; len]),
+            };
+            let nested = Val::Msg(iv);
+            let x = match f.card {
+                Card::One | Card::Boxed => nested,
+                Card::Opt => Val::Opt(Some(Box::new(nested))),
+                Card::Rep => Val::List(vec![nested]),
+            };
+            let mut v = base.clone();
+            v[i] = x;
+            out.push(Case { label: format!("{prefix}{}", f.label()), value: wrap(v), pair: false, any: false });
+        }
+    }
+}
+
 pub fn cases(s: &Schema) -> Vec<Case> {
     let mut out = vec![];
     let sweep = |fs: &[FieldSpec], wrap: &dyn Fn(Vec<Val>) -> Val, prefix: &str, out: &mut Vec<Case>| {
@@ -876,7 +913,10 @@ pub fn cases(s: &Schema) -> Vec<Case> {
         }
     };
     match &s.shape {
-        Shape::Struct(fs) => sweep(fs, &Val::Msg, "", &mut out),
+        Shape::Struct(fs) => {
+            sweep(fs, &Val::Msg, "", &mut out);
+            nested_size_sweep(fs, &Val::Msg, "", &mut out);
+        }
         Shape::Enum(vars) => {
             for (i, var) in vars.iter().enumerate() {
                 match &var.vk {
@@ -897,7 +937,8 @@ pub fn cases(s: &Schema) -> Vec<Case> {
                         }
                     }
                     VariantKind::Named(fs) => {
-                        sweep(fs, &|v| Val::Var(i, v), &format!("variant-{}-", var.name), &mut out)
+                        sweep(fs, &|v| Val::Var(i, v), &format!("variant-{}-", var.name), &mut out);
+                        nested_size_sweep(fs, &|v| Val::Var(i, v), &format!("variant-{}-", var.name), &mut out);
                     }
                 }
             }
